@@ -591,4 +591,21 @@ impl Prop for C17 {
             },
         )]
     }
+    fn extra(tier: Tier, seed: u64, ev: &mut ExtraEvidence) -> Vec<Violation> {
+        if tier != Tier::Thorough {
+            return Vec::new();
+        }
+        crate::fuzz::run(
+            &crate::fuzz::Campaign {
+                property: "C17",
+                target: "cfg_capture",
+                asan: false,
+                runs: 300_000,
+                max_len: 120,
+                seed,
+                seeds: crate::fuzz::random_seeds(seed, 24, 120),
+            },
+            ev,
+        )
+    }
 }
